@@ -55,15 +55,18 @@ type c15World struct {
 	pairs    []string // currency pairs incl. the timestamp pair
 	vals     []c15Val // the candidate L1 validators (the stored set is what was last refreshed)
 	// model of the stored host validator snapshot
-	storedHeight int64
-	stored       map[string]c15Val // cons address -> validator
-	enabled      bool
-	client       string // the L1 client id configured in the bridge info ("" = not yet configured)
-	log          []string
-	badKeyNext   bool // the next refresh carries an entry with an unconvertible consensus key
-	discardNext  bool // the next refresh runs on a branch that is thrown away
-	repowered    int  // number of power changes of known validators offered so far
-	discarded    int
+	storedHeight  int64
+	stored        map[string]c15Val // cons address -> validator
+	enabled       bool
+	client        string // the L1 client id configured in the bridge info ("" = not yet configured)
+	log           []string
+	badKeyNext    bool // the next refresh carries an entry with an unconvertible consensus key
+	discardNext   bool // the next refresh runs on a branch that is thrown away
+	repowered     int  // number of power changes of known validators offered so far
+	noInfo        bool // no bridge info has been registered on L2 yet
+	repoints      int
+	startedNoInfo bool
+	discarded     int
 }
 
 func (w *c15World) logf(f string, a ...interface{}) { w.log = append(w.log, fmt.Sprintf(f, a...)) }
@@ -84,6 +87,7 @@ func (w *c15World) setBridgeInfo(enabled bool) {
 	if r := w.l2.Deliver(opchildtypes.NewMsgSetBridgeInfo(w.exec.Str, info)); !r.OK() {
 		panic(r.Err)
 	}
+	w.noInfo = false
 	w.enabled = enabled
 }
 
@@ -95,7 +99,13 @@ func newC15World(rt *rapid.T) *c15World {
 	if rapid.IntRange(0, 3).Draw(rt, "clientLater") == 0 {
 		w.client = "" // the client id is configured later in the history
 	}
-	w.setBridgeInfo(true)
+	if rapid.IntRange(0, 5).Draw(rt, "infoLater") == 0 {
+		// the executor has not relayed the bridge info yet: light-client updates that arrive now (of whatever client)
+		// have no L1 client to be compared with and record nothing
+		w.noInfo, w.enabled, w.startedNoInfo = true, false, true
+	} else {
+		w.setBridgeInfo(true)
+	}
 	w.l2.OK.InitGenesis(w.l2.Ctx, oracletypes.GenesisState{CurrencyPairGenesis: []oracletypes.CurrencyPairGenesis{}})
 	np := rapid.IntRange(1, 4).Draw(rt, "npairs")
 	w.pairs = append([]string{"BTC/USD", "ETH/USD", "ATOM/USD", "INIT/USD"}[:np], c15TsPair)
@@ -217,6 +227,20 @@ func (w *c15World) refresh(rt *rapid.T, forceValid ...bool) error {
 		err := w.l2.K.UpdateHostValidatorSet(cctx, clientID, height, set)
 		w.logf("refresh on a discarded branch (client=%q height=%d n=%d) -> %v", clientID, height, len(set.Validators), err)
 		return w.checkStored()
+	}
+	if w.noInfo {
+		// whatever the hook answers while no bridge info exists (it is called inside the client-update transaction,
+		// which is written only when no error comes back): nothing may be recorded
+		cctx, write := w.l2.Ctx.CacheContext()
+		err := w.l2.K.UpdateHostValidatorSet(cctx, clientID, height, set)
+		if err == nil {
+			write()
+		}
+		w.logf("refresh before any bridge info exists (client=%q height=%d n=%d) -> %v", clientID, height, len(set.Validators), err)
+		if err := w.checkStored(); err != nil {
+			return fmt.Errorf("a light-client update that arrived before the bridge info was registered: %v", err)
+		}
+		return nil
 	}
 	err := w.l2.K.UpdateHostValidatorSet(w.l2.Ctx, clientID, height, set)
 	if err != nil {
@@ -458,10 +482,27 @@ func TestC15Rapid(t *testing.T) {
 			fail := func(f string, a ...interface{}) {
 				rt.Fatalf("C15 violated at step %d: %s\nhistory:\n%s", i, fmt.Sprintf(f, a...), strings.Join(w.log, "\n"))
 			}
-			switch drawWeighted(rt, "op", []weighted{{"update", 8}, {"refresh", 2}, {"toggle", 1}, {"discarded-refresh", 1}, {"next-block", 2}, {"bad-key-refresh", 1}}) {
+			switch drawWeighted(rt, "op", []weighted{{"update", 8}, {"refresh", 2}, {"toggle", 1}, {"discarded-refresh", 1}, {"next-block", 2}, {"bad-key-refresh", 1}, {"repoint-attempt", 1}}) {
 			case "next-block":
 				w.l2.NextBlock(time.Duration(rapid.IntRange(1, 10).Draw(rt, "blockSeconds")) * time.Second)
 				w.logf("next block, time %s", w.l2.Ctx.BlockTime().UTC().Format(time.RFC3339))
+				return
+			case "repoint-attempt":
+				// the executor tries to re-point the bridge to another light client, directly or by first blanking the
+				// configured client id: the configured L1 client stays what it is
+				if w.noInfo || w.client == "" {
+					return
+				}
+				for _, cl := range []string{"", "07-tendermint-9"} {
+					cfg := henv.DefaultBridgeConfig(w.exec.Str, w.exec.Str, time.Hour)
+					cfg.OracleEnabled = w.enabled
+					r := w.l2.Deliver(opchildtypes.NewMsgSetBridgeInfo(w.exec.Str, opchildtypes.BridgeInfo{BridgeId: 1, BridgeAddr: "bridge-addr", L1ChainId: c15ChainID, L1ClientId: cl, BridgeConfig: cfg}))
+					w.logf("set-bridge-info with client id %q -> %v", cl, r.Err)
+				}
+				w.repoints++
+				if got, err := w.l2.K.BridgeInfo.Get(w.l2.Ctx); err != nil || got.L1ClientId != w.client {
+					fail("after attempts to blank and replace the L1 client id the bridge info names client %q (err %v), configured was %q", got.L1ClientId, err, w.client)
+				}
 				return
 			case "bad-key-refresh":
 				w.badKeyNext = true
@@ -657,6 +698,12 @@ func TestC15Rapid(t *testing.T) {
 			}
 			if forged > 0 {
 				c.Class("contains-forged-or-duplicate-or-foreign-entry")
+			}
+			if w.startedNoInfo {
+				c.Class("history-that-started-without-bridge-info")
+			}
+			if w.repoints > 0 {
+				c.Class("update-after-an-attempt-to-replace-the-l1-client")
 			}
 			if near || forged > 0 {
 				c.NonTrivial()
